@@ -66,7 +66,7 @@ REQUIRED_CATEGORIES = [
     "quadrant_1", "quadrant_2", "quadrant_3", "quadrant_4", "mirror_relatives", "rotation_relatives",
     "reproduction_checked_newton", "reproduction_checked_scipy", "newton_scipy_compared", "mem_alias_checked",
     "equiv_exact_mem", "equiv_exact_mem2/approximate", "equiv_exact_mem2/newton", "equiv_exact_mem2/scipy",
-    "hard_case", "hard_case_unrealisable", "jacobian_points", "jacobian_first_guess_points", "increments_checked",
+    "hard_case", "hard_case_unrealisable", "history_custom_config_then_default", "jacobian_points", "jacobian_first_guess_points", "increments_checked",
 ]
 
 VARIANTS = {
@@ -76,6 +76,8 @@ VARIANTS = {
     "mem2/scipy": ("mem2", {"solution_method": "scipy"}),
 }
 ATOL = 0.01  # the solver's absolute tolerance quoted by the property
+# distribution-space equivariance tolerance, relative to max(D) of the base case
+EQUIV_TOL = {"mem": 1e-9, "mem2/approximate": 1e-9, "mem2/newton": 1e-9, "mem2/scipy": 1e-6}
 
 HARD = [
     (0.557185, -0.795699, -0.305963, -0.884653),
@@ -306,13 +308,14 @@ def describe(meta, rel, N):
 # --------------------------------------------------------------------------------------------
 # the mixture / hard-case check
 # --------------------------------------------------------------------------------------------
-def check_chunk(c, agg, N, metas, c1, c2, family, demand_reproduction):
+def check_chunk(c, agg, N, metas, c1, c2, family, demand_reproduction, variants=None):
     """metas: list of json-able descriptions, c1/c2 complex (nb,); demand_reproduction (nb,) bool."""
+    variants = list(VARIANTS) if variants is None else list(variants)
     nb = len(c1)
     C1, C2 = relatives(c1, c2, N)  # (nb,2N)
     flat1, flat2 = C1.ravel(), C2.ravel()
     out = {}
-    for variant in VARIANTS:
+    for variant in variants:
         try:
             D = estimate(variant, flat1, flat2, N)
         except Exception as exc:  # noqa: library raised inside the property's domain
@@ -393,8 +396,17 @@ def check_chunk(c, agg, N, metas, c1, c2, family, demand_reproduction):
         with np.errstate(invalid="ignore"):
             mis = np.max(np.abs(D - exp), axis=-1) / scale
         ok_in = fin & fin[:, :1]
-        solver = variant in ("mem2/newton", "mem2/scipy")
-        tol = 1e-6 if solver else 1e-9
+        # mem, mem2/approximate and mem2/newton are deterministic arithmetic on the rotated inputs: a
+        # rounding-derived tolerance applies (EQUIV_TOL).  Only scipy's lm (finite-difference Jacobian,
+        # xtol 1.5e-8) is judged leniently.
+        solver = variant == "mem2/scipy"
+        tol = EQUIV_TOL[variant]
+        if ok_in.any():
+            w = float(np.max(mis[ok_in]))
+            key = f"equiv_worst_rel_deviation:{variant}"
+            prev = c.extra.get(key)
+            if prev is None or w > float(prev[0].split()[0]):
+                c.extra[key] = [f"{w:.3e} (N={N}, {family})"]
         exact = ok_in & (mis <= tol)
         c.cat("equiv_exact_" + variant, int(exact.sum()))
         off = ok_in & ~(mis <= tol)
@@ -419,7 +431,10 @@ def run_mix(unit):
     c = Collector()
     agg = Agg(c)
     N, tier = unit["N"], unit["tier"]
-    cases = base_cases(N, tier)[unit["shard"]::unit["shards"]]
+    cases = base_cases(N, tier)
+    if unit.get("narrow"):
+        cases = [x for x in cases if x[0]["width"] in NARROW]
+    cases = cases[unit["shard"]::unit["shards"]]
     dl = 360.0 / N
     nb_chunk = max(1, 4000 // (2 * N))
     for s in range(0, len(cases), nb_chunk):
@@ -427,7 +442,7 @@ def run_mix(unit):
         metas = [m for m, _, _ in blk]
         c1 = np.array([x for _, x, _ in blk])
         c2 = np.array([x for _, _, x in blk])
-        check_chunk(c, agg, N, metas, c1, c2, "vonmises", np.ones(len(blk), dtype=bool))
+        check_chunk(c, agg, N, metas, c1, c2, "vonmises", np.ones(len(blk), dtype=bool), unit.get("variants"))
         for m in metas:
             c.cat("unimodal" if m["w2"] == 0 else "bimodal", 1)
             c.cat("background", 1 if m["bg"] > 0 else 0)
@@ -449,7 +464,7 @@ def run_hard(unit):
     c2 = np.array([complex(h[2], h[3]) for h in HARD])
     inside = realisability(c1, c2) < -1e-9
     metas = [{"hard_case": i, "width": f"hard{i}", "realisable": bool(inside[i])} for i in range(len(HARD))]
-    check_chunk(c, agg, N, metas, c1, c2, "hard", inside)
+    check_chunk(c, agg, N, metas, c1, c2, "hard", inside, unit.get("variants"))
     c.cat("hard_case", int(inside.sum()) * 2 * N)
     c.cat("hard_case_unrealisable", int((~inside).sum()) * 2 * N)
     c.case({"N": N, "hard": True})
@@ -574,12 +589,151 @@ def run_jac(unit):
 
 
 # --------------------------------------------------------------------------------------------
+# history family: a call with a custom solver_config must not change later default calls
+# --------------------------------------------------------------------------------------------
+DOCUMENTED_NUMERICS = {"atol": 0.01, "max_iter": 100, "max_line_search_depth": 8, "rcond": 1e-6,
+                       "use_mem_when_failing_to_converge": True}
+CUSTOM_CONFIGS = [
+    ("empty", {}),
+    ("atol_0.05", {"atol": 0.05}),
+    ("atol_0.5_max_iter_1", {"atol": 0.5, "max_iter": 1}),
+    ("max_iter_2", {"max_iter": 2}),
+    ("no_mem_fallback", {"use_mem_when_failing_to_converge": False}),
+]
+CUSTOM_METHODS = ["newton", "scipy"]  # mem2() merges solver_config before it dispatches on solution_method
+HIST_MARK = "@@C06-HISTORY@@"
+
+
+def history_child(tier):
+    """Runs in a FRESH interpreter.  [default newton/scipy/approximate/mem on mixtures + hard cases] ;
+    [call(s) with a custom solver_config through estimate_directional_distribution(..., solver_config=)]
+    ; [the same default calls] -> bit-identical, newton still within the default tolerance 0.01, module
+    defaults untouched.  Stops at the first offending history."""
+    import warnings
+
+    from mc import runner
+
+    runner.setup_environment()
+    warnings.simplefilter("ignore")
+    runner.assert_library_from_tree()
+    import ocean_science_utilities.wavespectra.estimators.mem2 as M
+    from ocean_science_utilities.wavespectra.estimators.estimate import estimate_directional_distribution as edd
+
+    rep = {"violations": [], "evaluations": 0, "histories": 0, "harness_error": None, "members": 0,
+           "custom_calls_raising_not_converged": 0}
+    if dict(M.NUMERICS) != DOCUMENTED_NUMERICS:
+        rep["harness_error"] = f"module defaults at start {dict(M.NUMERICS)!r} != documented {DOCUMENTED_NUMERICS!r}"
+        return rep
+    N = 36
+    cases = base_cases(N, "quick")[::7]
+    c1 = np.array([x for _, x, _ in cases] + [complex(h[0], h[1]) for h in HARD])
+    c2 = np.array([x for _, _, x in cases] + [complex(h[2], h[3]) for h in HARD])
+    realisable = realisability(c1, c2) < -1e-9
+    rep["members"] = len(c1)
+    direction = np.linspace(0, 360, N, endpoint=False)
+    args = lambda: [np.ascontiguousarray(x)[None, :] for x in (c1.real, c1.imag, c2.real, c2.imag)]  # noqa: E731
+
+    def default_calls():
+        out = {}
+        for variant, (method, kw) in VARIANTS.items():
+            with quiet():
+                out[variant] = robust(lambda: edd(*args(), direction.copy(), method, **kw))[0] * (180.0 / np.pi)
+            rep["evaluations"] += len(c1)
+        return out
+
+    base = default_calls()
+    histories = [[(sm, c)] for sm in CUSTOM_METHODS for c in CUSTOM_CONFIGS]
+    if tier != "quick":
+        histories += [[("newton", a), ("newton", b)] for a in CUSTOM_CONFIGS for b in CUSTOM_CONFIGS]
+    for hist in histories:
+        hname = " ; ".join(f"{sm}:{cn}" for sm, (cn, _) in hist)
+        key = {"family": "history", "history": hname, "N": N}
+        for sm, (cname, cfg) in hist:
+            try:
+                with quiet():
+                    robust(lambda: edd(*args(), direction.copy(), "mem2", solution_method=sm, solver_config=dict(cfg)))
+            except ValueError as exc:
+                if "did not converge" in str(exc) and cfg.get("use_mem_when_failing_to_converge") is False:
+                    rep["custom_calls_raising_not_converged"] += 1  # documented behaviour of that setting
+                else:
+                    rep["violations"].append([dict(key, check="raises", exception="ValueError"),
+                                              f"call with solver_config={cfg} ({sm}) raises ValueError: {exc}", {}])
+            except Exception as exc:  # noqa
+                rep["violations"].append([dict(key, check="raises", exception=type(exc).__name__),
+                                          f"call with solver_config={cfg} ({sm}) raises {type(exc).__name__}: {exc}",
+                                          {"traceback": tb_tail(exc)}])
+            rep["evaluations"] += len(c1)
+        rep["histories"] += 1
+        bad = False
+        if dict(M.NUMERICS) != DOCUMENTED_NUMERICS:
+            rep["violations"].append([dict(key, check="module_defaults_changed"),
+                                      f"after [{hname}] the module defaults are {dict(M.NUMERICS)!r}", {}])
+            bad = True
+        try:
+            again = default_calls()
+            for variant in VARIANTS:
+                if not np.array_equal(again[variant], base[variant], equal_nan=True):
+                    d = np.abs(again[variant] - base[variant])
+                    rep["violations"].append([
+                        dict(key, check="default_call_changed_by_history", variant=variant),
+                        f"{variant}: default call after [{hname}] differs from the same call before it "
+                        f"(max |dD| = {float(np.nanmax(d)):.3g}, {int((d > 0).any(-1).sum())} members)", {}])
+                    bad = True
+            m1, m2 = disc_moments(again["mem2/newton"], N)
+            res = mnorm(m1 - c1, m2 - c2)
+            worst = float(np.max(res[realisable]))
+            if not worst <= ATOL + 1e-9:
+                rep["violations"].append([
+                    dict(key, check="reproduces_moments_after_history", variant="mem2/newton"),
+                    f"mem2/newton default call after [{hname}]: |m_in - m(D)| up to {worst:.4g} > {ATOL}", {}])
+                bad = True
+        except Exception as exc:  # noqa
+            rep["violations"].append([dict(key, check="default_call_raises_after_history", exception=type(exc).__name__),
+                                      f"default call after [{hname}] raises {type(exc).__name__}: {exc}",
+                                      {"traceback": tb_tail(exc)}])
+            bad = True
+        if bad:
+            rep["stopped_after"] = hname
+            break
+    return rep
+
+
+def run_history(unit):
+    import os
+    import subprocess
+
+    c = Collector()
+    verif = os.path.dirname(os.path.dirname(os.path.dirname(os.path.abspath(__file__))))
+    p = subprocess.run([sys.executable, "-m", "mc.props.c06", "history", unit["tier"]], cwd=verif,
+                       capture_output=True, text=True, env=dict(os.environ))
+    lines = [ln for ln in p.stdout.splitlines() if ln.startswith(HIST_MARK)]
+    if p.returncode != 0 or not lines:
+        raise RuntimeError(f"history child failed (exit {p.returncode}): {p.stderr[-1500:]}")
+    rep = json.loads(lines[-1][len(HIST_MARK):])
+    if rep["harness_error"]:
+        raise AssertionError(rep["harness_error"])
+    for key, what, detail in rep["violations"]:
+        c.violation(key, what, **detail)
+    c.evaluations += rep["evaluations"]
+    c.cat("history_custom_config_then_default", rep["histories"])
+    c.cat("history_custom_call_raised_not_converged(documented)", rep["custom_calls_raising_not_converged"])
+    c.extra["history_distinct"] = rep["histories"]
+    c.case({"history": True, "tier": unit["tier"]})
+    c.sample({"history": "default ; newton:atol_0.05 ; default", "members": rep["members"], "N": 36,
+              "fresh_interpreter": True})
+    return c.result()
+
+
+# --------------------------------------------------------------------------------------------
 def tier_N(tier):
     return [24, 36] if tier == "quick" else [24, 36, 72, 144]
 
 
+NARROW = ("1.5bin", "2bin", "3bin")
+
+
 def hard_N(tier):
-    return [36] if tier == "quick" else [36, 72, 144]
+    return [36, 72] if tier == "quick" else [36, 72, 144]
 
 
 PER_SOLVE_MS = {24: 0.3, 36: 0.35, 72: 0.6, 144: 1.2}  # all four variants together, scheduling only
@@ -594,6 +748,14 @@ def units(tier):
         for s in range(shards):
             us.append({"name": f"mix:N{N}:{s}/{shards}", "kind": "mix", "N": N, "shard": s, "shards": shards,
                        "cost": total_ms / shards})
+    if tier == "quick":
+        # narrow lobes (1.5-3 bins) on the fine grid: where an orientation dependent Newton path shows;
+        # without the scipy variant (which dominates the cost and is judged leniently anyway)
+        N, shards = 72, 4
+        for s in range(shards):
+            us.append({"name": f"narrow:N{N}:{s}/{shards}", "kind": "mix", "N": N, "shard": s, "shards": shards,
+                       "narrow": True, "variants": ["mem", "mem2/approximate", "mem2/newton"], "cost": 6000})
+    us.append({"name": "history:solver_config", "kind": "history", "cost": 40000})
     for N in hard_N(tier):
         us.append({"name": f"hard:N{N}", "kind": "hard", "N": N, "cost": 5 * 2 * N * 3.0})
     for N in tier_N(tier):
@@ -618,14 +780,25 @@ def finalize(coverage, results, tier):
     for N in tier_N(tier):
         cases = base_cases(N, tier)
         per_N[f"mixtures_N{N}"] = distinct_inputs([x for _, x, _ in cases], [x for _, _, x in cases], N)
+    if tier == "quick":
+        cases = [x for x in base_cases(72, tier) if x[0]["width"] in NARROW]
+        per_N["narrow_mixtures_N72"] = distinct_inputs([x for _, x, _ in cases], [x for _, _, x in cases], 72)
     for N in hard_N(tier):
         per_N[f"hard_N{N}"] = distinct_inputs([complex(h[0], h[1]) for h in HARD], [complex(h[2], h[3]) for h in HARD], N)
     total = sum(per_N.values())
     jac = sum(int(r.get("distinct_nontrivial", 0)) for r in results if str(r.get("unit", "")).startswith("jac:"))
-    coverage["distinct_nontrivial"] = int(total + jac)
+    hist = sum(int(r.get("extra", {}).get("history_distinct", 0)) for r in results)
+    coverage["distinct_nontrivial"] = int(total + jac + hist)
+    coverage["distinct_histories"] = int(hist)
     coverage["distinct_inputs_per_grid"] = per_N
     coverage["distinct_jacobian_points"] = int(jac)
 
 
 def run_unit(unit):
-    return {"mix": run_mix, "hard": run_hard, "jac": run_jac}[unit["kind"]](unit)
+    return {"mix": run_mix, "hard": run_hard, "jac": run_jac, "history": run_history}[unit["kind"]](unit)
+
+
+if __name__ == "__main__":
+    if len(sys.argv) >= 3 and sys.argv[1] == "history":
+        _rep = history_child(sys.argv[2])
+        sys.stdout.write("\n" + HIST_MARK + json.dumps(_rep) + "\n")
